@@ -190,6 +190,71 @@ func runLock(e Entry, rng *rand.Rand, stress int, real bool) {
 		if real {
 			continue
 		}
+		// ---- writer in between: whenever the operating goroutine reaches a lock operation while it still holds a lock
+		// of the mock, another goroutine calls M first and is left to queue up for the lock; a nested read
+		// acquisition then sits behind that writer for ever (sync.RWMutex prefers writers)
+		{
+			acts2 := []string{"MCalls", "callM"}
+			if e.Resets {
+				acts2 = append(acts2, "resetM", "resetAll")
+			}
+			for _, act := range acts2 {
+				in, _ := newInstance(e)
+				m, n := in.methods[mi], in.methods[(mi+1)%len(in.methods)]
+				p := &lockProg{e: e, in: in, name: fmt.Sprintf("writer-in-between %s during %s", m.Name, act), seen: map[string]bool{}}
+				isync.Reset()
+				p.nameLocks()
+				emit(map[string]any{"t": "progress", "mock": e.Name, "mode": "lock", "program": p.name})
+				for _, x := range in.methods {
+					p.quietStub(x)
+				}
+				// some records first, so that per-record work happens inside the accessor
+				for k := 0; k < 3; k++ {
+					p.guarded(m.Name, func() { p.call(m) })
+				}
+				a := isync.GID()
+				injected := false
+				var bdone chan struct{}
+				var bg atomic.Uint64
+				isync.Yield = func() {
+					if isync.GID() != a || injected || len(isync.Held(a)) == 0 {
+						return
+					}
+					injected = true
+					count("writers_injected_while_a_lock_was_held", 1)
+					bdone = make(chan struct{})
+					go func() {
+						bg.Store(isync.GID())
+						defer close(bdone)
+						p.guarded(m.Name, func() { p.call(m) })
+					}()
+					for i := 0; i < 40000; i++ {
+						if g := bg.Load(); g != 0 && isync.IsWaiting(g) {
+							return
+						}
+						select {
+						case <-bdone:
+							return
+						default:
+						}
+						time.Sleep(50 * time.Microsecond)
+					}
+				}
+				p.guarded(m.Name, func() { p.action(act, m, n) })
+				isync.Yield = nil
+				if bdone != nil {
+					select {
+					case <-bdone:
+					case <-time.After(3 * time.Second):
+						p.viol(m.Name, "the injected call of "+m.Name+" never returned")
+					}
+				}
+				for _, r := range isync.Reports() {
+					p.viol(m.Name, r)
+				}
+				count("writer_in_between_programs", 1)
+			}
+		}
 		// ---- parked callback: M's callback blocks until other goroutines have completed every kind of operation
 		for variant := 0; variant < 2; variant++ {
 			in, _ := newInstance(e)
